@@ -1,6 +1,7 @@
 import TexcraftModel.Lemmas.C18
 import TexcraftModel.Lemmas.C18Cst
 import TexcraftModel.Lemmas.C18Build
+import TexcraftModel.Lemmas.C18Scaled
 
 /-!
 # C18 — the Box language: property theorems
@@ -241,5 +242,23 @@ theorem full_statement_of_lexer_inverse : C18_full_statement := by
   unfold parseText
   rw [hr]
   simp only [parse_print H m l he]
+
+/-! ## `ScaledRoundTrip` discharged
+
+`Lemmas/C18Scaled.lean` derives the hypothesis from C06's kernel-evaluated table of all 65 536
+fraction values (`C06.fracOK_all`), so the statements above hold unconditionally. The
+conditional forms are kept: they do not depend on C06's files. -/
+
+theorem scaled_round_trip_holds : ScaledRoundTrip := scaledRoundTrip
+
+theorem parse_print_unconditional (m : Mode) (l : List Node) (he : exprList m l = true) :
+    parseToks m (printNodes m l) = some l :=
+  parse_print scaledRoundTrip m l he
+
+theorem scaled_text_roundtrip_unconditional (s : Int) (rest : List Char)
+    (hs : -1073741823 ≤ s ∧ s ≤ 1073741823) (hr : WordEnd rest) :
+    (if s < 0 then lexNumber true ((printScaled s).tail ++ rest)
+     else lexNumber false (printScaled s ++ rest)) = .ok (.dim s, rest) :=
+  scaled_text_roundtrip scaledRoundTrip s rest hs hr
 
 end C18
